@@ -15,7 +15,8 @@
 //	release i             Release() of reference i (skipped unless that call returned a reference)
 //	setctx c | clearctx   SetContext(ctx c) / ClearContext()
 //	cancelctx c           cancel context c
-//	return k v|0 h e      resolver entry k returns (value k+1 | empty value, release func given 0|1, error id e)
+//	return k v|0 h e      resolver entry k returns (value k+1 | empty value, release func given 0|1, error id e:
+//	                      1..3 plain errors, 9 = context.Canceled itself with every context alive)
 //	released k            call the released() closure handed to resolver entry k
 //	arm k                 the next recording callback / release function calls released() of entry k from inside
 //	gate kind nth         hold the nth hit of hook point `kind` on the RefCount until `opengate g`
